@@ -144,7 +144,7 @@ class ArraySlice(_ArrayExpr):
         for idx, axis_size in zip_longest(indices, parent_shape):
             if idx is None:
                 break
-            if isinstance(idx, slice):
+            if isinstance(idx, (slice, sp.Tuple)):
                 new_idx = sp.Tuple(*normalize(idx, axis_size))
             else:
                 new_idx = _sympify(_normalize_index(idx, axis_size))
